@@ -95,6 +95,13 @@ pub struct Ctx {
     pub stopped: bool,
     /// history replay: append the hash of every executed case
     pub orderlog: Option<std::io::BufWriter<std::fs::File>>,
+    /// crash recovery: a partial report is written here about once a second, at a case boundary
+    pub checkpoint: Option<String>,
+    last_checkpoint: Instant,
+    /// the last case that ran to completion
+    pub last_done: u64,
+    /// crash recovery: skip (without executing) every case up to and including this one
+    pub resuming: bool,
 }
 
 impl Ctx {
@@ -130,6 +137,10 @@ impl Ctx {
             until: None,
             stopped: false,
             orderlog: None,
+            checkpoint: None,
+            last_checkpoint: Instant::now(),
+            last_done: 0,
+            resuming: false,
         }
     }
 
@@ -138,14 +149,29 @@ impl Ctx {
         if self.describe.is_some() {
             return false;
         }
-        self.offered += 1;
+        if !self.resuming {
+            self.offered += 1;
+        }
         let h = fnv64(key);
         if h % self.shard_n != self.shard_i {
             return false;
         }
         if self.dedup && !self.seen.insert(h) {
-            self.duplicates += 1;
+            if !self.resuming {
+                self.duplicates += 1;
+            }
             return false;
+        }
+        if self.resuming {
+            if self.resume_after == Some(h) {
+                self.resuming = false;
+            }
+            return false;
+        }
+        // the previous case returned: it is complete
+        self.last_done = self.cur_hash;
+        if self.checkpoint.is_some() && self.last_checkpoint.elapsed().as_millis() >= 1000 {
+            self.write_checkpoint();
         }
         if self.skip_hashes.contains(&h) {
             return false;
@@ -230,6 +256,18 @@ impl Ctx {
     pub fn add(&mut self, k: &str, n: u64) {
         let cur = self.extra.get(k).and_then(|v| v.as_u64()).unwrap_or(0);
         self.extra.insert(k.to_string(), json!(cur + n));
+    }
+
+    fn write_checkpoint(&mut self) {
+        self.last_checkpoint = Instant::now();
+        if let Some(p) = self.checkpoint.clone() {
+            let mut rep = self.report();
+            rep["checkpoint_hash"] = json!(self.last_done.to_string());
+            let tmp = format!("{}.tmp", p);
+            if std::fs::write(&tmp, serde_json::to_vec(&rep).unwrap_or_default()).is_ok() {
+                let _ = std::fs::rename(&tmp, &p);
+            }
+        }
     }
 
     pub fn report(&mut self) -> Value {
